@@ -33,6 +33,15 @@ CHECKS = {
             'random and block-edge partitions in the default, SMALL_FOOTPRINT (and SM3_SSE in thorough) builds and '
             'compared byte for byte with an independent implementation; thorough adds >2^32-bit messages.',
             '4/C03', TRUSTED),
+    'C07': ('exploration',
+            'sanitized execution with an executable acceptance predicate transcribed from the property, evaluated on the '
+            'attribute model the chains are built from (independent X.509/SM2 builder), interposed clock',
+            'Chains of 1..5 certificates with 0..3 seeded defects per chain over the per-certificate axes '
+            '(basicConstraints, pathLen, keyUsage, EKU, validity edges at now-1/now/now+1, signature good/corrupt/foreign, '
+            'issuer name, anchor present/absent/same-name-other-key, version, unknown critical extension) x role x depth, '
+            'for x509_certs_verify and x509_certs_verify_tlcp: library-accepts => predicate holds; every toolkit-shaped '
+            'chain (0..4 intermediates) satisfying the predicate must be accepted.',
+            '4/C07', TRUSTED),
     'C08': ('exploration',
             'two real endpoints in one sanitized process (ASan+UBSan) over a socketpair with shim-injected short '
             'reads/writes and yields; monitors: negotiated-state equality and byte-stream conservation of a counter pattern',
@@ -70,6 +79,16 @@ CHECKS = {
             'plaintext, 60+ other sequence numbers, other keys must fail; after real handshakes duplicated, swapped and '
             'dropped application-data records must surface no byte at or after the fault.',
             '4/C11', TRUSTED),
+    'C14': ('exploration',
+            'sanitized execution with an independent strict-DER / PBKDF2 / SM4 reference: round trip with exact '
+            'consumption, dry-run length vs bytes written into exactly-sized ASan blocks, accept => re-encodes identically, '
+            'mutant refusal, text-codec inversion under seeded chunkings, capacity canaries',
+            'Every ASN.1 primitive and every DER composite the library serialises (SM2/SM9 signatures, ciphertexts, keys, plain '
+            'and PBES2-encrypted PKCS#8, algorithm identifiers, names, extension codecs and builders) is driven with seeded '
+            'values and systematically mutated byte strings; base64/hex/PEM are inverted for all lengths 0..200 (0..4096 '
+            'thorough) under random update cuts and line re-flows, malformed text and oversized PEM bodies are offered against '
+            'declared capacities, and 2,000 (20,000) wrong passwords incl. the 1/256 valid-padding cases are tried.',
+            '4/C14', TRUSTED),
     'C18': ('fault_enumeration',
             'interposed getentropy (per-thread deterministic streams, draw log, injected failure at draw i) and virtual '
             'clock in the sanitized process; outputs compared across streams and runs; send() calls after the failed draw '
